@@ -449,11 +449,59 @@ class Discharger:
     def discharge(self, f, b, t, kind, what):
         for rule in (self.d_vector_table, self.d_arity, self.d_arity_user, self.d_dominating_test, self.d_checked_key, self.d_nonempty, self.d_container_variant, self.d_variant_runs,
                      self.d_table, self.d_counter, self.d_total_cast, self.d_const_index, self.d_front_insert, self.d_front_remove, self.d_bounds, self.d_map_key_present, self.d_cell_momentary, self.d_borrow, self.d_known_arith,
-                     self.d_const_input, self.d_div_guarded, self.d_zero_checked, self.d_variant_runs_callers, self.d_expander_probes):
+                     self.d_const_input, self.d_div_guarded, self.d_zero_checked, self.d_variant_runs_callers, self.d_clamped_to_len, self.d_reader_slices, self.d_expander_probes):
             r = rule(f, b, t, kind, what)
             if r is not None:
                 return r
         return (False, None, "no discharge rule applies")
+
+    # -------------------------------------------------------------- D-clamped-to-len
+    def d_clamped_to_len(self, f, b, t, kind, what):
+        """v.split_off(at) / v.truncate-like positions where `at` is `x.min(v.len())` (or `min(x, v.len())`) of the same vector, the length
+        taken right before with nothing that could change the vector in between: at <= len"""
+        if not (kind == "std-panicky" and what in ("split_off",) and len(t.get("args") or []) >= 2):
+            return None
+        al = mir.op_local(t["args"][1])
+        ds = mir.defs_of(f).get(al, []) if al is not None else []
+        if len(ds) != 1 or ds[0][0] != "call" or not callee_matches(ds[0][2], "cmp::Ord::min", "cmp::min"):
+            return None
+        vec = mir.trace_access(f, t["args"][0])
+        mb, mt = ds[0][1], ds[0][2]
+        for side in mt["args"]:
+            sl = mir.op_local(side)
+            sd = mir.defs_of(f).get(sl, []) if sl is not None else []
+            if len(sd) == 1 and sd[0][0] == "call" and callee_matches(sd[0][2], "Vec::len", "SmallVec::len", "<impl [T]>::len") and \
+                    mir.trace_access(f, sd[0][2]["args"][0]) == vec:
+                lb = sd[0][1]
+                dom = f.dominators()
+                if lb in dom[b] and mb in dom[b]:
+                    region = ({x for x in f.reachable(lb, avoid=[b]) if b in f.reachable(x)} - {lb, b})
+                    others = [1 for bb, tt in f.calls() if bb in region and bb != mb and any(mir.trace_access(f, a_)[0] == vec[0] for a_ in tt.get("args", []))]
+                    if not others:
+                        return (True, "D-clamped-to-len", "the position is min(_, v.len()) of the same vector, taken right before")
+        return None
+
+    # -------------------------------------------------------------- D-reader-slices
+    def d_reader_slices(self, f, b, t, kind, what):
+        """a slice / index site in a scanner of the lexer for which no argument applies (a piece of the text just scanned cut at an offset
+        computed from it): texts with line breaks and multi-byte characters at every such cut are followed through the whole lexer — a
+        reached panic is the violation; when they pass through this function without one there is neither proof nor counterexample"""
+        if not (kind == "std-panicky" and what in ("index", "index_mut") and f.name.startswith("parser::lexer::")):
+            return None
+        from . import lexrun
+        try:
+            rows, vis = lexrun.slice_probes(self.fb)
+        except Exception as e:  # pragma: no cover
+            return (None, "D-reader-slices", "the reader probes could not be run: %r" % (e,))
+        fn = f.name.split("::{closure")[0]
+        hit = [r for r in rows if r[1] != "ok" and r[1][0] == "panic"]
+        if hit:
+            return (False, "D-reader-slices", "reading %r panics (%s)" % (hit[0][0], hit[0][1][1]))
+        if any(str(v).split("::{closure")[0] == fn for v in vis) and not any(r[1] != "ok" for r in rows):
+            return (None, "D-reader-slices", "no argument bounds the index; %d texts with line breaks and multi-byte characters inside strings, "
+                    "|identifiers| and after comments pass through this function without reaching the panic (neither a proof nor a "
+                    "counterexample)" % len(rows))
+        return None
 
     # -------------------------------------------------------------- D-expander-probes
     def d_expander_probes(self, f, b, t, kind, what):
@@ -1099,6 +1147,21 @@ class Discharger:
                     return (True, "D-dominating-test", "unsigned decrement by %d dominated by a test that the value is at least %d" % (c, c))
                 if rv["op"] == "AddWithOverflow" and c == 1 and ty == "u32" and f.name.startswith("parser::lexer::"):
                     return (True, "D-input-size", "line/column counter (assumption: fewer than 2^32 lines and columns)")
+                if rv["op"] == "AddWithOverflow" and ty == "u32" and f.name.startswith("parser::lexer::"):
+                    # the sum is what the lexer's position becomes (stored into its `location` field right after the check): the position
+                    # advanced by a number of characters just consumed, or a column counted from the last line break
+                    nxt, seen_ = [t.get("target")], set()
+                    for _ in range(3):
+                        nb_ = nxt.pop(0) if nxt else None
+                        if nb_ is None or nb_ in seen_:
+                            break
+                        seen_.add(nb_)
+                        for s2 in f.blocks[nb_]["stmts"]:
+                            if s2["k"] == "assign" and any(e_.get("k") == "field" and e_.get("name") == "location" for e_ in s2["place"].get("proj") or []):
+                                return (True, "D-input-size", "the sum becomes the lexer's line / column (assumption: fewer than 2^32 lines and columns)")
+                        tm_ = f.blocks[nb_]["term"]
+                        if tm_["k"] == "assert":
+                            nxt.append(tm_.get("target"))
                 break
         return None
 
